@@ -218,5 +218,17 @@ static void run_case(KSI_CTX *ctx, const struct c18_case *c, unsigned ci) {
 void harness(void) {
 	VERIF_ctx_init();
 	for (unsigned ci = 0; ci < NCASES; ci++) run_case(VERIF_ctx, &cases[ci], ci);
+#ifdef SHORT_INPUTS
+	{	/* inputs shorter than the magic, and the documented argument checks */
+		KSI_PublicationsFile *pf = NULL;
+		u8 *shortbuf = verif_buf_alloc(7);
+		for (unsigned i = 0; i < 7; i++) shortbuf[i] = ND(u8, short_input_byte);
+		CHECK(KSI_PublicationsFile_parse(VERIF_ctx, shortbuf, 7, &pf) == KSI_INVALID_FORMAT && pf == NULL, "C18.H1 an input shorter than the magic is refused");
+		CHECK(KSI_PublicationsFile_parse(VERIF_ctx, shortbuf, 0, &pf) == KSI_INVALID_ARGUMENT && KSI_PublicationsFile_parse(VERIF_ctx, NULL, 7, &pf) == KSI_INVALID_ARGUMENT
+			&& KSI_PublicationsFile_parse(NULL, shortbuf, 7, &pf) == KSI_INVALID_ARGUMENT && KSI_PublicationsFile_parse(VERIF_ctx, shortbuf, 7, NULL) == KSI_INVALID_ARGUMENT && pf == NULL,
+			"C18.H1 missing arguments and an empty input are invalid arguments");
+		verif_buf_free(shortbuf, 7);
+	}
+#endif
 	WITNESS_POINT("all cases of the group executed");
 }
